@@ -378,6 +378,13 @@ class EpochRules:
                             sink.emit('C04.ENTER', 'ok' if good else 'violated', 'LeaveEpoch stores the sentinel', self.loc(f, e['line']), 'stores %s' % show(e['value']))
                         else:
                             sink.bad('C04.ENTER', '%s writes the pinned epoch' % sname(f['name']), self.loc(f, e['line']), '')
+        # entering pins and leaving un-pins on *every* path (a guard's constructor / destructor rely on it unconditionally)
+        for nm, what in (('ep.EnterEpoch', 'EnterEpoch pins on every path'), ('ep.LeaveEpoch', 'LeaveEpoch un-pins on every path')):
+            fE = self.F[nm]
+            for p in self.paths(fE):
+                ws = [e for e in p.events if e['kind'] == 'atomic' and is_write(e) and e['obj'] == ent]
+                sink.emit('C04.ENTER', 'ok' if len(ws) == 1 else 'violated', what, self.loc(fE, p.ret_line),
+                          'one store to %s' % self.entf if len(ws) == 1 else 'a path through the function performs %d writes to %s: the slot can keep / miss a pin although the guard exists / is gone' % (len(ws), self.entf))
         for p in self.paths(self.F['ep.GetCurrentEpoch']):
             lo = [e for e in p.events if e['kind'] == 'atomic' and e['op'] == 'load']
             good = len(lo) == 1 and p.ret == lo[0]['result'] and lo[0]['obj'] == ('deref', S('this->' + self.curf))
@@ -784,7 +791,9 @@ class EpochRules:
                 sink.ok('C04.SHARED', key, '', IDIOM[(rec, fld)])
             else:
                 rule = 'C17.SHARED' if (rec, fld) in ((self.em['name'], self.head), (self.node['name'], self.nextf)) else 'C04.SHARED'
-                sink.bad(rule, '%s non-atomic member written by one role and accessed by the other' % key, (cw + ww)[0],
+                who = 'written by %s, %s' % (' and '.join(r for r, w in (('the coordinator', cw), ('workers', ww)) if w),
+                                              'read by %s' % ' and '.join(r for r, x in (('the coordinator', cr), ('workers', wr)) if x) if (cr or wr) else 'never read')
+                sink.bad(rule, '%s non-atomic member %s' % (key, who), (cw + ww)[0],
                          'coordinator writes %s reads %s; workers write %s read %s: a data race under the C++ memory model' % (sorted(set(cw))[:2], sorted(set(cr))[:2], sorted(set(ww))[:2], sorted(set(wr))[:2]))
 
     def reach(self, roots):
